@@ -70,12 +70,12 @@ theorem C05_leaf_resp (ext : Ext F) (laws : ExtLaws ext) (s : Scalar) (tbl : Tab
 /-- what `C05_data` asks of a resolver value: every scalar leaf is a well-formed Go value whose arm passes
 the response-level test, enum leaves name a declared value (D17 excluded), no typed fast-path slice
 (D18 excluded).  Everything else — wrong shapes, lists for scalars, scalars for lists — is allowed. -/
-def dataSound (tb : Scalar → Table) (n : Bool) : TRef → Data F → Bool
+def dataSound (tb : Scalar → Table) (n fc : Bool) : TRef → Data F → Bool
   | _, .leaf .nil => true
-  | .nonNull t, d => dataSound tb n t d
-  | .list t, .list xs => xs.all (dataSound tb n t)
-  | .list _, .slice .fast _ => false
-  | .list t, .slice .reflect xs => xs.all (fun x => dataSound tb n t (.leaf x))
+  | .nonNull t, d => dataSound tb n fc t d
+  | .list t, .list xs => xs.all (dataSound tb n fc t)
+  | .list t, .slice .fast xs => !fc && xs.all (fun x => dataSound tb n fc t (.leaf x))
+  | .list t, .slice .reflect xs => xs.all (fun x => dataSound tb n fc t (.leaf x))
   | .list _, .leaf _ => true
   | .scalar s, .leaf v => v.wf && armSoundOutR n s v.kind ((tb s).armFor v.kind)
   | .scalar s, _ => armSoundOutR n s .other ((tb s).armFor .other)
@@ -94,9 +94,9 @@ theorem wellTyped_of_checkOut (ext : Ext F) (s : Scalar) (v r : GoVal F) (e : Bo
 /-- **C05_data.**  Whatever nesting of list / non-null wrappers the declared type has and whatever
 nesting of Go lists the resolver returned, the value placed in the response has the JSON shape of the
 declared type. -/
-theorem C05_data (ext : Ext F) (laws : ExtLaws ext) (tb : Scalar → Table) (n : Bool)
+theorem C05_data (ext : Ext F) (laws : ExtLaws ext) (tb : Scalar → Table) (n fc : Bool)
     (hft : ∀ s, (tb s).formatTime = (s == .time)) (t : TRef) (d : Data F)
-    (hs : dataSound tb n t d = true) : wellTyped ext t (resolveData ext tb n t d).1 = true := by
+    (hs : dataSound tb n fc t d = true) : wellTyped ext t (resolveData ext tb n fc t d).1 = true := by
   induction t generalizing d with
   | scalar s =>
     cases d with
@@ -106,7 +106,7 @@ theorem C05_data (ext : Ext F) (laws : ExtLaws ext) (tb : Scalar → Table) (n :
       · have hs' : v.wf = true ∧ armSoundOutR n s v.kind ((tb s).armFor v.kind) = true := by
           cases v <;> simp_all [dataSound]
         have h := C05_leaf_resp ext laws s (tb s) v n (hft s) hs'.2 hs'.1
-        have : (resolveData ext tb n (.scalar s) (.leaf v)).1 = .leaf (leafOut n (coerce ext (tb s) v)).1 := by
+        have : (resolveData ext tb n fc (.scalar s) (.leaf v)).1 = .leaf (leafOut n (coerce ext (tb s) v)).1 := by
           cases v <;> simp_all [resolveData]
         rw [this]
         exact wellTyped_of_checkOut ext s v _ (leafOut n (coerce ext (tb s) v)).2 h
@@ -135,7 +135,13 @@ theorem C05_data (ext : Ext F) (laws : ExtLaws ext) (tb : Scalar → Table) (n :
       exact ih x (hs x hx)
     | slice k xs =>
       cases k with
-      | fast => simp [dataSound] at hs
+      | fast =>
+        simp only [dataSound, Bool.and_eq_true, Bool.not_eq_true', List.all_eq_true] at hs
+        obtain ⟨hfc, hs⟩ := hs
+        subst hfc
+        simp only [resolveData, Bool.false_eq_true, if_false, wellTyped, List.all_eq_true, List.mem_map]
+        rintro r ⟨p, ⟨x, hx, rfl⟩, rfl⟩
+        exact ih (.leaf x) (hs x hx)
       | reflect =>
         simp only [dataSound, List.all_eq_true] at hs
         simp only [resolveData, wellTyped, List.all_eq_true, List.mem_map]
@@ -144,19 +150,19 @@ theorem C05_data (ext : Ext F) (laws : ExtLaws ext) (tb : Scalar → Table) (n :
   | nonNull t ih =>
     by_cases hd : d = .leaf .nil
     · subst hd; simp [resolveData, wellTyped]
-    · have h1 : resolveData ext tb n (.nonNull t) d = resolveData ext tb n t d := by
+    · have h1 : resolveData ext tb n fc (.nonNull t) d = resolveData ext tb n fc t d := by
         cases d with
         | leaf v => cases v <;> simp_all [resolveData]
         | list xs => simp [resolveData]
         | slice k xs => simp [resolveData]
-      have h2 : dataSound tb n (.nonNull t) d = dataSound tb n t d := by
+      have h2 : dataSound tb n fc (.nonNull t) d = dataSound tb n fc t d := by
         cases d with
         | leaf v => cases v <;> simp_all [dataSound]
         | list xs => simp [dataSound]
         | slice k xs => simp [dataSound]
       rw [h1]; rw [h2] at hs
       have := ih d hs
-      cases hr : (resolveData ext tb n t d).1 with
+      cases hr : (resolveData ext tb n fc t d).1 with
       | leaf r => cases r <;> simp_all [wellTyped]
       | list ys => simp_all [wellTyped]
 
